@@ -134,6 +134,12 @@ def lemmas(ev: Any, prop: str = "C01", only_constructs: bool = False) -> tuple[l
                 harness.append(f"C01-b translation validation: path model {wv!r} disagrees with the real function")
             tv += 1
     # ---- hazard queries
+    cvc = {"agree": 0, "disagree": 0, "unknown_or_timeout": 0, "queries": 0}
+    pending: list[tuple[str, str, str]] = []   # (what, smt2 text, z3 verdict)
+
+    def second_opinion(solver: Any, z3_res: Any, what: str) -> None:
+        pending.append((what, solver.to_smt2(), str(z3_res)))
+
     nq = nunsat = 0
     sat_models: list[dict[str, Any]] = []
     solver_s = 0.0
@@ -153,6 +159,8 @@ def lemmas(ev: Any, prop: str = "C01", only_constructs: bool = False) -> tuple[l
                     res = s.check()
                     solver_s += time.time() - t1
                     nq += 1
+                    if _round == 0:
+                        second_opinion(s, res, f"family {fam} path {pi} rest={with_rest}")
                     if res == z3.unsat:
                         if _round == 0:
                             nunsat += 1
@@ -177,10 +185,25 @@ def lemmas(ev: Any, prop: str = "C01", only_constructs: bool = False) -> tuple[l
             res = s.check()
             solver_s += time.time() - t1
             ncq += 1
+            second_opinion(s, res, f"construct {fam} path {pi}")
             if res == z3.sat:
                 construct_sat.append(dict(family=fam, path=pi, w=s.model().eval(w, model_completion=True).as_string()))
             elif res != z3.unsat:
                 harness.append(f"C01-b: solver returned unknown for construct {fam} path {pi}")
+    # ---- second solver (thorough tier): cvc5 on the same SMT-LIB text, one process per query under a hard limit
+    if C.tier() == "thorough" and pending:
+        from engines.crosscheck import cvc5_verdicts
+
+        for (what, _t, zres), v in zip(pending, cvc5_verdicts([t for _w, t, _z in pending])):
+            cvc["queries"] += 1
+            if v in ("sat", "unsat"):
+                if v == zres:
+                    cvc["agree"] += 1
+                else:
+                    cvc["disagree"] += 1
+                    harness.append(f"C01-b: z3 says {zres}, cvc5 says {v} for {what}")
+            else:
+                cvc["unknown_or_timeout"] += 1
     # ---- vacuity: each family regex is satisfiable on its own, and the unescaped identity WOULD be hazardous
     for fam, (rx, _l) in FAMILIES.items():
         s = z3.Solver()
@@ -228,5 +251,5 @@ def lemmas(ev: Any, prop: str = "C01", only_constructs: bool = False) -> tuple[l
             spec_only += 1
     info.update(families=list(FAMILIES), queries_hazard=nq, unsat=nunsat, sat=len(sat_models), sat_confirmed_by_replay=confirmed, sat_spec_only=spec_only,
                 translation_validation_checks=tv, solver_s=round(solver_s, 2), wall_s=round(time.time() - t0, 1), bounds=f"|w|<={MAXW}, |r|<={MAXR}",
-                sat_samples=sat_models[:6], construct_queries=ncq, construct_sat=construct_sat[:6], constructs=list(CONSTRUCTS))
+                sat_samples=sat_models[:6], cvc5_second_opinion=cvc, construct_queries=ncq, construct_sat=construct_sat[:6], constructs=list(CONSTRUCTS))
     return findings, harness, info
